@@ -148,12 +148,12 @@ NoCollinearTouching(doc) ==
 C09_OK(ev) == ev.doc.wf = 1 /\ NoCollinearTouching(ev.doc)
 C09_NT(ev) == ev.doc.wf = 1 /\ Cardinality({ i \in Idx(ev.doc) : IsPlainLine(ev.doc.elems[i]) }) >= 2
 
-\* (i) the run family.  ev.run = [ch, len, dir ("h", "v", "s" = '/', "b" = '\'), k, n]
+\* (i) the run family.  ev.run = [chars (the characters of the run, in order), len, dir ("h", "v", "s" = '/', "b" = '\'), k, n]
 RunRows(run) ==
   [i \in 1..run.n |-> <<>>] \o
-  (IF run.dir = "h" THEN << [j \in 1..run.k |-> SP] \o [j \in 1..run.len |-> run.ch] >>
+  (IF run.dir = "h" THEN << [j \in 1..run.k |-> SP] \o run.chars >>
    ELSE [i \in 1..run.len |->
-           [j \in 1..(run.k + (IF run.dir = "v" THEN 0 ELSE IF run.dir = "s" THEN run.len - i ELSE i - 1)) |-> SP] \o <<run.ch>>])
+           [j \in 1..(run.k + (IF run.dir = "v" THEN 0 ELSE IF run.dir = "s" THEN run.len - i ELSE i - 1)) |-> SP] \o <<run.chars[i]>>])
 DoubleCh == {61, 9552, 9553}                             \* = and the double box-drawing lines
 BrokenCh == {126, 9476, 58, 33, 9550, 9482, 9478}        \* ~ and the dashed box-drawing lines, : !
 RunLineOK(e, run) ==
@@ -161,15 +161,16 @@ RunLineOK(e, run) ==
       x1 == (run.k + (IF run.dir = "v" THEN 1 ELSE run.len)) * CW * MILLI
       y1 == (run.n + (IF run.dir = "h" THEN 1 ELSE run.len)) * CH * MILLI IN
   /\ IsPlainLine(e)
-  /\ (IsBroken(e) <=> run.ch \in BrokenCh) /\ (IsSolid(e) <=> run.ch \notin BrokenCh)
+  /\ LET dashed == \E i \in 1..Len(run.chars) : run.chars[i] \in BrokenCh IN      \* dashed if any part of it is dashed
+     (IsBroken(e) <=> dashed) /\ (IsSolid(e) <=> ~dashed)
   /\ CASE run.dir = "h" -> {e.n[1], e.n[3]} = {x0, x1} /\ e.n[2] = e.n[4] /\ e.n[2] >= y0 /\ e.n[2] <= y1
        [] run.dir = "v" -> {e.n[2], e.n[4]} = {y0, y1} /\ e.n[1] = e.n[3] /\ e.n[1] >= x0 /\ e.n[1] <= x1
        [] run.dir = "s" -> { <<e.n[1], e.n[2]>>, <<e.n[3], e.n[4]>> } = { <<x1, y0>>, <<x0, y1>> }
        [] OTHER         -> { <<e.n[1], e.n[2]>>, <<e.n[3], e.n[4]>> } = { <<x0, y0>>, <<x1, y1>> }
 C09run_OK(ev) ==
   /\ ev.doc.wf = 1
-  /\ ev.rows = RunRows(ev.run)
-  /\ Len(ev.doc.elems) = (IF ev.run.ch \in DoubleCh THEN 2 ELSE 1)
+  /\ ev.rows = RunRows(ev.run) /\ Len(ev.run.chars) = ev.run.len
+  /\ Len(ev.doc.elems) = (IF ev.run.chars[1] \in DoubleCh THEN 2 ELSE 1)
   /\ \A i \in Idx(ev.doc) : RunLineOK(ev.doc.elems[i], ev.run)
   /\ (Len(ev.doc.elems) = 2 => ev.doc.elems[1].n # ev.doc.elems[2].n)
 
